@@ -114,6 +114,7 @@ def main(argv=None):
                 wall,
                 len(new),
                 extra={
+                    "generator_health": problems,
                     "known_findings_observed": sorted(seen_known),
                     "exhaustive": bool(
                         out.stats.extra.get("exhaustive", False)
@@ -132,9 +133,17 @@ def main(argv=None):
             print(f"VIOLATION property={prop} replay={path}")
         return 1
     if problems:
+        # A starved class of generated cases is a defect of the generator,
+        # not of nessai.  Thorough tier: exit 2.  Quick tier: the case counts
+        # are small, so an under-filled class is reported (stdout + evidence)
+        # but only the absence of non-trivial cases is fatal.
+        fatal = args.tier != "quick" or len(out.stats.nontrivial) < 2 \
+            or os.environ.get("VERIF_STRICT_HEALTH") == "1"
         for p in problems:
-            print(f"HARNESS-ERROR property={prop} generator: {p}")
-        return 2
+            print(("HARNESS-ERROR" if fatal else "GENERATOR-HEALTH") +
+                  f" property={prop} generator: {p}")
+        if fatal:
+            return 2
     s = out.stats
     print(
         f"OK property={prop} tier={args.tier} seed={seed} "
